@@ -224,13 +224,16 @@ for _k, _fs in {"C01": ["ApiIntoServer", "Formulas"], "C03": ["Formulas"], "C02"
 # third build session: interleave / u / session key, random-draw functions, API constructors and registration,
 # cipher-object constructors incl. Rc4::new + key schedule and Wrath InnerCrypto::new, PIN hash, matrix-card verifier
 for _k, _fs in {"C01": ["Interleave", "ApiCtors", "KeyCheck", "ApiClientProof"], "C02": ["Interleave"], "C03": ["Interleave", "ApiCtors"], "C15": ["Draws", "ApiCtors"],
-                "C07": ["Ctors"], "C08": ["Ctors"], "C09": ["Ctors"], "C10": ["Ctors"], "C11": ["Ctors"], "C12": ["Ctors"], "C18": ["MatrixProof"]}.items():
+                "C07": ["Ctors"], "C08": ["Ctors"], "C09": ["Ctors"], "C10": ["Ctors"], "C11": ["Ctors"], "C12": ["Ctors"], "C18": ["MatrixProof"],
+                "C17": ["Integrity"], "C06": ["Digests"], "C05": ["Digests", "Accessors"], "C04": ["KeyCheck"]}.items():
+    STEP_FILES[_k] = STEP_FILES.get(_k, []) + [f for f in _fs if f not in STEP_FILES.get(_k, [])]
+for _k, _fs in {"C01": ["Digests", "Accessors"], "C02": ["Digests", "Accessors"], "C03": ["Digests", "Accessors", "KeyCheck"], "C19": ["KeyCheck"]}.items():
     STEP_FILES[_k] = STEP_FILES.get(_k, []) + [f for f in _fs if f not in STEP_FILES.get(_k, [])]
 for _k, _fs in STEP_FILES.items():
     PROPS[_k]["extra_files"] = PROPS[_k]["extra_files"] + ["proofs/steps/%s.v" % f for f in _fs]
 
 # property-level statements about the bodies translated from the source (props/src/Cxx.v)
-for _k in ("C01", "C02", "C03", "C04", "C05", "C06", "C07", "C08", "C09", "C10", "C11", "C13", "C14", "C15", "C16", "C18"):
+for _k in ("C01", "C02", "C03", "C04", "C05", "C06", "C07", "C08", "C09", "C10", "C11", "C12", "C13", "C14", "C15", "C16", "C17", "C18"):
     PROPS[_k]["prop_files"] = list(PROPS[_k]["prop_files"]) + ["props/src/%s.v" % _k]
 
 # delegations of the combined crypto objects to their halves (tools/extract_delegations.py + proofs/delegations/*.v)
